@@ -24,6 +24,8 @@ KFOn(n) == ("KF_" \o n) \in DOMAIN IOEnv
 VARIABLES tr, l,
           outs,     \* sequence of emitted packs over all channels, global arrival order; each with q and cs (compute sequence number)
           reads,    \* sequence of [s, pack] read so far
+          sdrops,   \* s -> set of [obj, no, i, ts]: drop messages the stream has read (obj "" = the collection), pack number, index, time
+          sreads,   \* the same per stream: s -> sequence of [s, pack, fl] (kept to make ReadsOf constant time)
           srcmsg,   \* message id -> the source message record
           cnt,      \* number of compute steps so far
           pend,     \* g -> compute sequence number of the pack g holds at "presend"
@@ -36,7 +38,7 @@ VARIABLES tr, l,
           fl,       \* downstream channel q -> highest checkpoint (seek) time among the collections started so far with a shard on q
           kfused
 
-vars == <<tr, l, outs, reads, srcmsg, cnt, pend, evs, drained, stops, addparts, starts, cfeeds, fl, kfused>>
+vars == <<tr, l, outs, reads, sreads, sdrops, srcmsg, cnt, pend, evs, drained, stops, addparts, starts, cfeeds, fl, kfused>>
 
 Params == Traces[tr].params
 Floor == IF "floor" \in DOMAIN Params THEN Params.floor ELSE 0
@@ -44,7 +46,7 @@ Catalog == Params.catalog
 TaskID == "task1"
 
 TInit == /\ tr \in 1..Len(Traces) /\ l = 1
-         /\ outs = <<>> /\ reads = <<>> /\ srcmsg = <<>> /\ cnt = 0 /\ pend = <<>> /\ evs = <<>>
+         /\ outs = <<>> /\ reads = <<>> /\ sreads = <<>> /\ sdrops = <<>> /\ srcmsg = <<>> /\ cnt = 0 /\ pend = <<>> /\ evs = <<>>
          /\ drained = FALSE /\ stops = <<>> /\ addparts = <<>> /\ starts = <<>> /\ cfeeds = <<>> /\ fl = <<>> /\ kfused = {}
 
 IsTick(m) == m.k = "tick"
@@ -60,7 +62,7 @@ CollOfPack(p) == Catalog[CollIdx(p.coll)]
 LabelOK(p) == /\ KnownColl(p.coll) /\ p.pch \in DOMAIN CollOfPack(p).bypch
               /\ p.cname = CollOfPack(p).name /\ p.task = TaskID
 StreamOfPack(p) == CollOfPack(p).bypch[p.pch]          \* source vchannel named by the pack's label
-ReadsOf(s) == SelectSeq(reads, LAMBDA r : r.s = s)
+ReadsOf(s) == IF s \in DOMAIN sreads THEN sreads[s] ELSE <<>>
 PackNo(s, id) == CHOOSE i \in 1..Len(ReadsOf(s)) : ReadsOf(s)[i].pack.id = id
 WasRead(s, id) == \E i \in 1..Len(ReadsOf(s)) : ReadsOf(s)[i].pack.id = id
 PackId(p) == p.epos[1].id
@@ -68,13 +70,29 @@ PackId(p) == p.epos[1].id
 (* ------------------------------ C01 -------------------------------------- *)
 DataKind(k) == k \in {"ins", "del", "dropp", "dropc"}
 DropBoth(c, m) == "dropboth" \in DOMAIN c /\ m.k \in {"ins", "del", "dropp"} /\ \E i \in 1..Len(c.dropboth) : c.dropboth[i] = m.p
-Expected(c, pack) == SelectSeq(pack.msgs, LAMBDA m : DataKind(m.k) /\ ~DropBoth(c, m))
+\* what a shard reads AFTER its own drop message of an object (the partition's drop-partition message, the collection's
+\* drop-collection message) is addressed to an object that is dropped on both sides once that drop has been replayed:
+\* it is not expected downstream (C04 demands that it is NOT emitted).  rs = the reads of the shard, no = index of the pack.
+DropsOf(s) == IF s \in DOMAIN sdrops THEN sdrops[s] ELSE {}
+DropSeenBefore(s, rs, no, i, obj) ==
+    \E d \in DropsOf(s) :
+       /\ d.obj = obj
+       /\ \/ d.no < no
+          \/ /\ d.no = no       \* same pack: handled in timestamp order (source order among equals)
+             /\ (d.i < i /\ d.ts <= rs[no].pack.msgs[i].ts) \/ (d.i > i /\ d.ts < rs[no].pack.msgs[i].ts)
+ExpectedAt(c, rs, no) ==
+    LET msgs == rs[no].pack.msgs
+        s == rs[no].s
+        idx == {i \in 1..Len(msgs) : /\ DataKind(msgs[i].k) /\ ~DropBoth(c, msgs[i])
+                                     /\ ~DropSeenBefore(s, rs, no, i, "")
+                                     /\ ~(msgs[i].k \in {"ins", "del", "dropp"} /\ msgs[i].p # "" /\ DropSeenBefore(s, rs, no, i, msgs[i].p))} IN
+    [n \in 1..Cardinality(idx) |-> msgs[CHOOSE i \in idx : Cardinality({j \in idx : j < i}) = n - 1]]
 Earlier(a, b) == a.ts < b.ts \/ (a.ts = b.ts /\ a.k = "del" /\ b.k # "del")
 PackExact(p) ==
     LET s == StreamOfPack(p)  c == CollOfPack(p)  d == NonTick(p) IN
     /\ WasRead(s, PackId(p))
     /\ LET rp == ReadsOf(s)[PackNo(s, PackId(p))].pack
-           ex == Expected(c, rp) IN
+           ex == ExpectedAt(c, ReadsOf(s), PackNo(s, PackId(p))) IN
        /\ Len(d) = Len(ex)
        /\ {d[i].pos.id : i \in 1..Len(d)} = {ex[i].mid : i \in 1..Len(ex)}        \* exactly the read ones, none twice
        /\ \A i \in 1..Len(d) : LET m == srcmsg[d[i].pos.id] IN                      \* payload and kind of the source
@@ -100,7 +118,7 @@ Complete ==
       \A r \in 1..Len(reads) :
          LET s == reads[r].s  pk == reads[r].pack
              c == Catalog[CHOOSE i \in 1..Len(Catalog) : s \in DOMAIN Catalog[i].pairs] IN
-         Len(Expected(c, pk)) > 0 => \E i \in 1..Len(outs) : LabelOK(outs[i]) /\ StreamOfPack(outs[i]) = s /\ PackId(outs[i]) = pk.id
+         Len(ExpectedAt(c, ReadsOf(s), PackNo(s, pk.id))) > 0 => \E i \in 1..Len(outs) : LabelOK(outs[i]) /\ StreamOfPack(outs[i]) = s /\ PackId(outs[i]) = pk.id
 \* shard s has read (within the first n reads) the drop message of obj ("" = the collection)
 HasReadDrop(s, obj, n) == \E r \in 1..n : reads[r].s = s /\ \E i \in 1..Len(reads[r].pack.msgs) :
                               LET m == reads[r].pack.msgs[i] IN
@@ -268,8 +286,16 @@ TStep ==
        /\ e.op # "machinery"
        /\ IF e.op = "feed" /\ e.res = "ok"
             THEN /\ reads' = Append(reads, [s |-> e.s, pack |-> e.pack, fl |-> fl])
+                 /\ sreads' = [x \in DOMAIN sreads \cup {e.s} |->
+                                 IF x = e.s THEN Append(IF e.s \in DOMAIN sreads THEN sreads[e.s] ELSE <<>>, [s |-> e.s, pack |-> e.pack, fl |-> fl])
+                                 ELSE sreads[x]]
                  /\ srcmsg' = [k \in DOMAIN srcmsg \cup MidsOf(e) |-> IF k \in DOMAIN srcmsg THEN srcmsg[k] ELSE MsgOf(e, k)]
-            ELSE UNCHANGED <<reads, srcmsg>>
+                 /\ LET no == (IF e.s \in DOMAIN sreads THEN Len(sreads[e.s]) ELSE 0) + 1
+                        new == {[obj |-> IF e.pack.msgs[i].k = "dropc" THEN "" ELSE e.pack.msgs[i].p, no |-> no, i |-> i, ts |-> e.pack.msgs[i].ts] :
+                                   i \in {j \in 1..Len(e.pack.msgs) : e.pack.msgs[j].k \in {"dropc", "dropp"}}} IN
+                    sdrops' = IF new = {} THEN sdrops
+                              ELSE [x \in DOMAIN sdrops \cup {e.s} |-> IF x = e.s THEN DropsOf(e.s) \cup new ELSE sdrops[x]]
+            ELSE UNCHANGED <<reads, sreads, sdrops, srcmsg>>
        /\ IF e.op = "step" /\ e.from = "prelock" /\ e.to = "presend"
             THEN /\ cnt' = cnt + 1
                  /\ pend' = [g \in DOMAIN pend \cup {e.g} |-> IF g = e.g THEN cnt + 1 ELSE pend[g]]
